@@ -274,7 +274,10 @@ impl KMap {
             } else {
                 ctx.push_container(id);
 
-                for (i, (key, value)) in self.data().iter().enumerate() {
+                // The entries are displayed from a copy of the map's data:
+                // displaying a value can call a `@display` function that modifies the map.
+                let data = self.data().clone();
+                for (i, (key, value)) in data.iter().enumerate() {
                     if i > 0 {
                         ctx.append(", ");
                     }
